@@ -1,18 +1,1101 @@
-//! Resource tables + histories (C07).  Filled in after C05/C06.
-use crate::run::{Host, Shared};
-use cabi_ref::CoreVal;
+//! Resource tables + host-chosen histories (C07).
+//!
+//! The host keeps the guest's handle table the way the canonical ABI defines it
+//! (own / borrow entries, lend counts, borrow scopes) and implements the
+//! `[resource-new]`, `[resource-rep]`, `[resource-drop]` built-ins and the
+//! `[dtor]` callback.  Handle indices are never reused, so that a stale handle
+//! is always recognised.  On top of the table there is an object ledger: every
+//! host object given to the guest as `own` must come back or be dropped exactly
+//! once; every guest object (exported resource) must be destroyed exactly once,
+//! through `[dtor]`, and must be reachable with the expected id through every
+//! handle.
+use crate::plan::{Dir, Func};
+use crate::run::{with_shared, Host, Shared, PTR};
+use cabi_ref::{Abi, CoreVal, HandleKind, Memory, Shape, SigKind, Val};
+use rsguest_support::{alloc, obs};
+use serde_json::json;
+use std::collections::{BTreeMap, BTreeSet};
+use wit_parser::{FunctionKind, Handle, Resolve, Type, TypeDefKind, TypeId};
 
-/// Hooks into the user-side resource implementation (generated glue).
+/// Hooks into the user-side state (generated glue).
 pub struct GuestHooks {
-    /// number of user resource objects currently alive
-    pub live_objects: fn() -> usize,
+    /// drop everything the user code kept
+    pub clear_stash: fn(),
+    pub stash_len: fn() -> usize,
 }
 
-/// `[resource-new]`, `[resource-rep]`, `[resource-drop]` built-ins.
-pub fn builtin_called(_sh: &mut Shared, _link: &str, _flat: &[CoreVal]) -> Option<Option<CoreVal>> {
+#[derive(Clone, Debug)]
+pub enum Entry {
+    Own { rt: usize, rep: u64, lend: u32 },
+    Borrow { rt: usize, rep: u64 },
+}
+
+#[derive(Clone, Debug)]
+pub struct ResType {
+    pub id: TypeId,
+    /// host-defined (imported by the guest) or guest-defined (exported)
+    pub exported: bool,
+    pub module: String,
+    pub name: String,
+}
+
+#[derive(Default)]
+pub struct ResState {
+    pub types: Vec<ResType>,
+    /// the guest's handle table; index 0 is never used; no reuse
+    pub table: Vec<Option<Entry>>,
+    /// host objects (imported resources): id -> (rt, times dropped by the guest, currently owned by guest?)
+    pub host_objs: BTreeMap<u64, HostObj>,
+    /// guest objects (exported resources) by rep
+    pub guest_objs: BTreeMap<u64, GuestObj>,
+    /// records of destroyed guest objects whose address was reused
+    pub retired: Vec<GuestObj>,
+    /// object id announced by the user code for the next `[resource-new]`
+    pub traps: Vec<(String, String)>,
+    pub borrows_in_call: u32,
+    pub next_host_obj: u64,
+    pub counters: BTreeMap<&'static str, u64>,
+    pub in_export: bool,
+}
+
+#[derive(Clone, Debug)]
+pub struct HostObj {
+    pub rt: usize,
+    pub guest_drops: u32,
+}
+
+#[derive(Clone, Debug)]
+pub struct GuestObj {
+    pub rt: usize,
+    pub id: Option<u32>,
+    pub dtor_calls: u32,
+}
+
+impl ResState {
+    fn count(&mut self, k: &'static str) {
+        *self.counters.entry(k).or_insert(0) += 1;
+    }
+    pub fn trap(&mut self, kind: &str, what: String) {
+        if self.traps.len() < 16 {
+            self.traps.push((kind.to_string(), what));
+        }
+    }
+    pub fn new_entry(&mut self, e: Entry) -> u32 {
+        if self.table.is_empty() {
+            self.table.push(None);
+        }
+        self.table.push(Some(e));
+        (self.table.len() - 1) as u32
+    }
+    pub fn rt_by_builtin(&self, module: &str, name: &str, exported: bool) -> Option<usize> {
+        self.types.iter().position(|t| t.exported == exported && t.module == module && t.name == name)
+    }
+    pub fn rt_of(&self, id: TypeId, exported_ctx: bool) -> Option<usize> {
+        // the same interface may be imported and exported: prefer the copy of the calling context
+        self.types.iter().position(|t| t.id == id && t.exported == exported_ctx).or_else(|| self.types.iter().position(|t| t.id == id))
+    }
+    pub fn live_own_entries(&self) -> Vec<(u32, Entry)> {
+        self.table.iter().enumerate().filter_map(|(i, e)| e.clone().map(|e| (i as u32, e))).collect()
+    }
+}
+
+thread_local! {
+    pub static RES: std::cell::RefCell<ResState> = std::cell::RefCell::new(ResState::default());
+}
+
+pub fn with_res<R>(f: impl FnOnce(&mut ResState) -> R) -> R {
+    RES.with(|r| f(&mut r.borrow_mut()))
+}
+
+/// resolve a handle type to (kind, original resource TypeId)
+pub fn handle_target(resolve: &Resolve, ty: &Type) -> Option<(HandleKind, TypeId)> {
+    let mut t = *ty;
+    loop {
+        match t {
+            Type::Id(id) => match &resolve.types[id].kind {
+                TypeDefKind::Type(inner) => t = *inner,
+                TypeDefKind::Handle(h) => {
+                    let (k, mut r) = match h {
+                        Handle::Own(r) => (HandleKind::Own, *r),
+                        Handle::Borrow(r) => (HandleKind::Borrow, *r),
+                    };
+                    // follow `use` aliases of the resource itself
+                    while let TypeDefKind::Type(Type::Id(next)) = &resolve.types[r].kind {
+                        r = *next;
+                    }
+                    return Some((k, r));
+                }
+                _ => return None,
+            },
+            _ => return None,
+        }
+    }
+}
+
+fn parse_builtin(link: &str) -> Option<(bool, &str, &str, &str)> {
+    // verif_import|[export]mod|[resource-new]name   /  verif_import|mod|[resource-drop]name
+    let rest = link.strip_prefix("verif_import|")?;
+    let (module, name) = rest.rsplit_once('|')?;
+    let (exported, module) = match module.strip_prefix("[export]") {
+        Some(m) => (true, m),
+        None => (false, module),
+    };
+    for kind in ["[resource-new]", "[resource-rep]", "[resource-drop]"] {
+        if let Some(r) = name.strip_prefix(kind) {
+            return Some((exported, module, kind, r));
+        }
+    }
     None
 }
 
-pub fn run_histories(host: &mut Host, _sets: usize, _ops: usize) {
-    host.rep.inconclusive("resource histories not implemented");
+fn call_dtor(sh: &Shared, module: &str, name: &str, rep: u64) -> bool {
+    let sym = format!("{module}#[dtor]{name}");
+    match sh.tables.exports.iter().find(|e| e.name == sym) {
+        Some(e) => {
+            let arg = [if PTR == 4 { CoreVal::I32(rep as u32) } else { CoreVal::I64(rep) }];
+            let prev = alloc::set_tracking(true);
+            unsafe { (e.call)(&arg) };
+            alloc::set_tracking(prev);
+            true
+        }
+        None => false,
+    }
+}
+
+/// Drop of an `own` entry: host objects are released, guest objects destroyed via `[dtor]`.
+fn destroy(sh: &Shared, rt: usize, rep: u64) {
+    let (exported, module, name) = with_res(|r| (r.types[rt].exported, r.types[rt].module.clone(), r.types[rt].name.clone()));
+    if exported {
+        with_res(|r| {
+            if let Some(o) = r.guest_objs.get_mut(&rep) {
+                o.dtor_calls += 1;
+            }
+            r.count("dtor_calls");
+        });
+        if !call_dtor(sh, &module, &name, rep) {
+            with_res(|r| r.trap("no-dtor-export", format!("no `{module}#[dtor]{name}` export in the bindings")));
+        }
+    } else {
+        with_res(|r| {
+            if let Some(o) = r.host_objs.get_mut(&rep) {
+                o.guest_drops += 1;
+            }
+            r.count("host_objects_dropped_by_guest");
+        });
+    }
+}
+
+/// `[resource-new]`, `[resource-rep]`, `[resource-drop]` built-ins.
+pub fn builtin_called(sh: &mut Shared, link: &str, flat: &[CoreVal]) -> Option<Option<CoreVal>> {
+    let (exported, module, kind, name) = parse_builtin(link)?;
+    let arg = flat.first().map(|v| v.bits()).unwrap_or(0);
+    let rt = with_res(|r| r.rt_by_builtin(module, name, exported));
+    let Some(rt) = rt else {
+        with_res(|r| r.trap("unknown-resource", format!("built-in `{link}` names a resource the world does not have")));
+        return Some(Some(CoreVal::I32(0)));
+    };
+    match kind {
+        "[resource-new]" => {
+            // the user code announced the object id just before (note `new:K:id`)
+            let id = obs::peek_last_note("new:").and_then(|n| n.rsplit(':').next().and_then(|x| x.parse::<u32>().ok()));
+            let idx = with_res(|r| {
+                r.count("resource_new");
+                match r.guest_objs.remove(&arg) {
+                    Some(old) if old.dtor_calls == 0 => r.trap("rep-reused", format!("`[resource-new]` called twice with the live representation {arg:#x}")),
+                    // the allocator reused the address of a destroyed object: retire the old record
+                    Some(old) => r.retired.push(old),
+                    None => {}
+                }
+                r.guest_objs.insert(arg, GuestObj { rt, id, dtor_calls: 0 });
+                r.new_entry(Entry::Own { rt, rep: arg, lend: 0 })
+            });
+            Some(Some(CoreVal::I32(idx)))
+        }
+        "[resource-rep]" => {
+            let rep = with_res(|r| {
+                r.count("resource_rep");
+                match r.table.get(arg as usize).cloned().flatten() {
+                    Some(Entry::Own { rt: t, rep, .. }) if t == rt => rep,
+                    Some(other) => {
+                        r.trap("rep-of-wrong-handle", format!("`[resource-rep]` of handle {arg}: entry {other:?} is not an own handle of `{name}`"));
+                        0
+                    }
+                    None => {
+                        r.trap("use-of-dropped-or-unknown-handle", format!("`[resource-rep]` of handle {arg} (`{name}`), which is not in the table"));
+                        0
+                    }
+                }
+            });
+            Some(Some(if PTR == 4 { CoreVal::I32(rep as u32) } else { CoreVal::I64(rep) }))
+        }
+        _ => {
+            // [resource-drop]
+            let entry = with_res(|r| {
+                r.count("resource_drop");
+                let e = r.table.get(arg as usize).cloned().flatten();
+                match &e {
+                    None => r.trap("drop-of-dropped-or-unknown-handle", format!("`[resource-drop]` of handle {arg} (`{name}`), which is not in the table (double drop or never issued)")),
+                    Some(Entry::Own { rt: t, .. }) | Some(Entry::Borrow { rt: t, .. }) if *t != rt => {
+                        r.trap("drop-with-wrong-type", format!("`[resource-drop]` of handle {arg} through `{name}`, but the entry is {e:?}"));
+                    }
+                    Some(Entry::Own { lend, .. }) if *lend > 0 => r.trap("own-dropped-while-lent", format!("own handle {arg} (`{name}`) dropped while it is lent to a call in progress")),
+                    _ => {}
+                }
+                if e.is_some() {
+                    r.table[arg as usize] = None;
+                }
+                if let Some(Entry::Borrow { .. }) = &e {
+                    if r.borrows_in_call == 0 {
+                        r.trap("borrow-count-underflow", format!("borrow handle {arg} dropped outside its call"));
+                    } else {
+                        r.borrows_in_call -= 1;
+                    }
+                }
+                e
+            });
+            if let Some(Entry::Own { rt, rep, .. }) = entry {
+                destroy(sh, rt, rep);
+            }
+            Some(None)
+        }
+    }
+}
+
+// ---------------------------------------------------------------------------
+// values with handles
+
+/// (kind, resource) of every handle leaf of a value, in traversal order
+fn collect_handles(abi: &Abi, resolve: &Resolve, v: &Val, ty: &Type, out: &mut Vec<(HandleKind, TypeId)>) {
+    match (abi.shape(ty), v) {
+        (Shape::Handle(_), Val::Handle(_)) => {
+            if let Some(t) = handle_target(resolve, ty) {
+                out.push(t);
+            }
+        }
+        (Shape::List(et), Val::List(xs)) | (Shape::FixedList(et, _), Val::List(xs)) => {
+            for x in xs {
+                collect_handles(abi, resolve, x, &et, out);
+            }
+        }
+        (Shape::Map(k, vt), Val::Map(xs)) => {
+            for (a, b) in xs {
+                collect_handles(abi, resolve, a, &k, out);
+                collect_handles(abi, resolve, b, &vt, out);
+            }
+        }
+        (Shape::Record(fs), Val::Record(xs)) => {
+            for (f, x) in fs.iter().zip(xs) {
+                collect_handles(abi, resolve, x, f, out);
+            }
+        }
+        (Shape::Variant(cs, _), Val::Variant(c, Some(p))) => {
+            if let Some(Some(t)) = cs.get(*c as usize) {
+                collect_handles(abi, resolve, p, t, out);
+            }
+        }
+        _ => {}
+    }
+}
+
+/// rebuild a value with every handle leaf replaced by `f(kind, resource, old)`
+fn map_handles(abi: &Abi, resolve: &Resolve, v: &Val, ty: &Type, f: &mut dyn FnMut(HandleKind, TypeId, u32) -> u32) -> Val {
+    match (abi.shape(ty), v) {
+        (Shape::Handle(_), Val::Handle(h)) => match handle_target(resolve, ty) {
+            Some((k, r)) => Val::Handle(f(k, r, *h)),
+            None => v.clone(),
+        },
+        (Shape::List(et), Val::List(xs)) | (Shape::FixedList(et, _), Val::List(xs)) => Val::List(xs.iter().map(|x| map_handles(abi, resolve, x, &et, f)).collect()),
+        (Shape::Map(k, vt), Val::Map(xs)) => Val::Map(xs.iter().map(|(a, b)| (map_handles(abi, resolve, a, &k, f), map_handles(abi, resolve, b, &vt, f))).collect()),
+        (Shape::Record(fs), Val::Record(xs)) => Val::Record(fs.iter().zip(xs).map(|(t, x)| map_handles(abi, resolve, x, t, f)).collect()),
+        (Shape::Variant(cs, _), Val::Variant(c, Some(p))) => match cs.get(*c as usize) {
+            Some(Some(t)) => Val::Variant(*c, Some(Box::new(map_handles(abi, resolve, p, t, f)))),
+            _ => v.clone(),
+        },
+        _ => v.clone(),
+    }
+}
+
+/// What the host model knows the user code holds (mirrors the guest's stash).
+#[derive(Default)]
+pub struct Model {
+    /// own handles of imported resources kept by the user code: (rt, index)
+    pub kept_imported: BTreeSet<(usize, u32)>,
+    /// own handles of exported resources kept by the user code: (rt, object id)
+    pub kept_exported: BTreeSet<(usize, u32)>,
+    /// exported-resource objects the host owns: (rt, rep, object id)
+    pub host_owned: Vec<(usize, u64, u32)>,
+    pub next_obj_id: u32,
+    /// ids of guest objects created so far / destroyed so far (from the user code's notes)
+    pub created: BTreeMap<u32, u32>,
+    pub dropped: BTreeMap<u32, u32>,
+    /// host objects handed to the guest as own and not yet accounted for: id -> handle index
+    pub given: BTreeMap<u64, u32>,
+}
+
+struct Planned {
+    wire: Vec<Val>,
+    seen: Vec<String>,
+    /// own handles (imported) the guest receives in this call: (rt, index, host obj)
+    received_own: Vec<(usize, u32, u64)>,
+    /// exported-resource owns moved to the guest: (rt, index, object id)
+    received_exported: Vec<(usize, u32, u32)>,
+}
+
+impl<'a> Host<'a> {
+    fn res_fail(&mut self, kind: &str, op: &str, msg: &str, f: Option<&Func>) {
+        let sig = format!("rust-res:{kind}:{op}");
+        let m = format!("{msg} [{}; opts {}]", f.map(|f| f.symbol()).unwrap_or_default(), self.tables.opts);
+        let rp = json!({"world": self.world_tag, "seed": self.seed, "call": self.call_no, "func": f.map(|f| f.symbol()), "opts": serde_json::from_str::<serde_json::Value>(self.tables.opts).unwrap_or_default(), "wit": self.tables.wit});
+        self.rep.violation(&sig, &m, rp);
+    }
+
+    /// report table traps recorded by the built-ins; returns true if any
+    fn drain_traps(&mut self, f: Option<&Func>, op: &str) -> bool {
+        let traps = with_res(|r| std::mem::take(&mut r.traps));
+        let any = !traps.is_empty();
+        for (kind, what) in traps {
+            self.res_fail(&kind, op, &what, f);
+        }
+        any
+    }
+
+    fn op_kind(f: &Func) -> &'static str {
+        match (&f.dir, &f.kind) {
+            (Dir::Export, FunctionKind::Constructor(_)) => "export-constructor",
+            (Dir::Export, FunctionKind::Method(_)) => "export-method",
+            (Dir::Export, FunctionKind::Static(_)) => "export-static",
+            (Dir::Export, _) => "export-func",
+            (Dir::Import, FunctionKind::Constructor(_)) => "import-constructor",
+            (Dir::Import, FunctionKind::Method(_)) => "import-method",
+            (Dir::Import, FunctionKind::Static(_)) => "import-static",
+            (Dir::Import, _) => "import-func",
+        }
+    }
+
+    /// consume the user code's notes: object creations / destructions / `self` ids
+    fn absorb_notes(&mut self, log: &[obs::Event], model: &mut Model) -> Vec<u32> {
+        let mut selfs = vec![];
+        for e in log {
+            if self.verbose {
+                eprintln!("EVENT {e:?}");
+            }
+            if let obs::Event::Note(n) = e {
+                let mut it = n.split(':');
+                let (k, _, id) = (it.next().unwrap_or(""), it.next(), it.next().and_then(|x| x.parse::<u32>().ok()));
+                match (k, id) {
+                    ("new", Some(id)) => *model.created.entry(id).or_insert(0) += 1,
+                    ("drop", Some(id)) => *model.dropped.entry(id).or_insert(0) += 1,
+                    ("self", Some(id)) => selfs.push(id),
+                    _ => {}
+                }
+            }
+        }
+        selfs
+    }
+
+    /// Values the host sends (export params / import results): random structure,
+    /// then every handle leaf is bound to a real table entry.  None: the host
+    /// does not own what the signature needs right now.
+    fn plan_down(&mut self, tys: &[Type], exported_ctx: bool, model: &mut Model) -> Option<Planned> {
+        let cfg = cabi_ref::GenCfg { max_list: 3, ..self.gen_cfg() };
+        for _attempt in 0..6 {
+            let vals: Vec<Val> = tys.iter().map(|t| self.abi.gen_val(&mut self.rng, t, &cfg, 0)).collect();
+            let mut leaves = vec![];
+            for (v, t) in vals.iter().zip(tys) {
+                collect_handles(&self.abi, self.resolve, v, t, &mut leaves);
+            }
+            // feasibility: exported-resource handles need objects the host owns
+            let mut need_own: BTreeMap<usize, usize> = BTreeMap::new();
+            let mut need_any: BTreeSet<usize> = BTreeSet::new();
+            let mut ok = true;
+            for (k, r) in &leaves {
+                let Some(rt) = with_res(|s| s.rt_of(*r, exported_ctx)) else {
+                    ok = false;
+                    break;
+                };
+                if with_res(|s| s.types[rt].exported) {
+                    match k {
+                        HandleKind::Own => *need_own.entry(rt).or_insert(0) += 1,
+                        _ => {
+                            need_any.insert(rt);
+                        }
+                    }
+                }
+            }
+            for (rt, n) in &need_own {
+                // a borrow of the same type in the same call needs one more object that stays
+                let extra = if need_any.contains(rt) { 1 } else { 0 };
+                if model.host_owned.iter().filter(|o| o.0 == *rt).count() < n + extra {
+                    ok = false;
+                }
+            }
+            for rt in &need_any {
+                if !model.host_owned.iter().any(|o| o.0 == *rt) {
+                    ok = false;
+                }
+            }
+            if !ok {
+                continue;
+            }
+            // commit
+            let mut planned = Planned { wire: vec![], seen: vec![], received_own: vec![], received_exported: vec![] };
+            for (v, t) in vals.iter().zip(tys) {
+                let mut seen_ids: Vec<u32> = vec![];
+                let wire = {
+                    let rng = &mut self.rng;
+                    let mut f = |k: HandleKind, r: TypeId, _old: u32| -> u32 {
+                        let rt = with_res(|s| s.rt_of(r, exported_ctx)).unwrap();
+                        let exported = with_res(|s| s.types[rt].exported);
+                        match (exported, k) {
+                            (false, HandleKind::Own) => {
+                                let (idx, obj) = with_res(|s| {
+                                    s.next_host_obj += 1;
+                                    let obj = s.next_host_obj;
+                                    s.host_objs.insert(obj, HostObj { rt, guest_drops: 0 });
+                                    (s.new_entry(Entry::Own { rt, rep: obj, lend: 0 }), obj)
+                                });
+                                planned.received_own.push((rt, idx, obj));
+                                seen_ids.push(idx);
+                                idx
+                            }
+                            (false, _) => {
+                                let idx = with_res(|s| {
+                                    s.next_host_obj += 1;
+                                    let obj = s.next_host_obj;
+                                    s.host_objs.insert(obj, HostObj { rt, guest_drops: 0 });
+                                    s.borrows_in_call += 1;
+                                    s.new_entry(Entry::Borrow { rt, rep: obj })
+                                });
+                                seen_ids.push(idx);
+                                idx
+                            }
+                            (true, HandleKind::Own) => {
+                                // move one of the host's objects into the guest's table
+                                let cands: Vec<usize> = model.host_owned.iter().enumerate().filter(|(_, o)| o.0 == rt).map(|(i, _)| i).collect();
+                                let pick = cands[rng.usize(cands.len())];
+                                let (_, rep, id) = model.host_owned.remove(pick);
+                                let idx = with_res(|s| s.new_entry(Entry::Own { rt, rep, lend: 0 }));
+                                planned.received_exported.push((rt, idx, id));
+                                seen_ids.push(id);
+                                idx
+                            }
+                            (true, _) => {
+                                let cands: Vec<&(usize, u64, u32)> = model.host_owned.iter().filter(|o| o.0 == rt).collect();
+                                let (_, rep, id) = *cands[rng.usize(cands.len())];
+                                seen_ids.push(id);
+                                rep as u32
+                            }
+                        }
+                    };
+                    map_handles(&self.abi, self.resolve, v, t, &mut f)
+                };
+                // what the user code prints: handle index for imported resources, object id for its own
+                let mut it = seen_ids.into_iter();
+                let seen = map_handles(&self.abi, self.resolve, &wire, t, &mut |_, _, _| it.next().unwrap_or(0));
+                planned.seen.push(self.text(&seen));
+                planned.wire.push(wire);
+            }
+            return Some(planned);
+        }
+        None
+    }
+
+    /// Values the user code must produce (export results / import params): the
+    /// script names handles the user code holds (`kept_*`) or new object ids.
+    /// Returns (script text, handles consumed from the model) or None.
+    fn plan_up(&mut self, tys: &[Type], exported_ctx: bool, fresh_only: bool, model: &mut Model) -> Option<Vec<(String, Val)>> {
+        let cfg = cabi_ref::GenCfg { max_list: 3, ..self.gen_cfg() };
+        'attempt: for _attempt in 0..6 {
+            let vals: Vec<Val> = tys.iter().map(|t| self.abi.gen_val(&mut self.rng, t, &cfg, 0)).collect();
+            let mut avail_imp: Vec<(usize, u32)> = model.kept_imported.iter().cloned().collect();
+            let mut avail_exp: Vec<(usize, u32)> = model.kept_exported.iter().cloned().collect();
+            let mut lent: BTreeSet<(usize, u32)> = BTreeSet::new();
+            let mut take_imp = vec![];
+            let mut take_exp = vec![];
+            let mut fresh = vec![];
+            let mut out = vec![];
+            let mut next_id = model.next_obj_id;
+            for (v, t) in vals.iter().zip(tys) {
+                let mut leaves = vec![];
+                collect_handles(&self.abi, self.resolve, v, t, &mut leaves);
+                let mut chosen = vec![];
+                for (k, r) in leaves {
+                    let Some(rt) = with_res(|s| s.rt_of(r, exported_ctx)) else { continue 'attempt };
+                    let exported = with_res(|s| s.types[rt].exported);
+                    match (exported, k) {
+                        (false, HandleKind::Own) => {
+                            let Some(pos) = avail_imp.iter().position(|x| x.0 == rt && !lent.contains(x)) else { continue 'attempt };
+                            let x = avail_imp.remove(pos);
+                            take_imp.push(x);
+                            chosen.push(x.1);
+                        }
+                        (false, _) => {
+                            // every leaf gets its own handle: the user code moves a kept handle out of
+                            // its stash to lend it, so it cannot lend the same one twice in one value
+                            let Some(x) = avail_imp.iter().find(|x| x.0 == rt && !lent.contains(x)).cloned() else { continue 'attempt };
+                            lent.insert(x);
+                            chosen.push(x.1);
+                        }
+                        (true, HandleKind::Own) => {
+                            let pos = avail_exp.iter().position(|x| x.0 == rt);
+                            match pos {
+                                Some(p) if !fresh_only && self.rng.chance(1, 2) => {
+                                    let x = avail_exp.remove(p);
+                                    take_exp.push(x);
+                                    chosen.push(x.1);
+                                }
+                                _ => {
+                                    next_id += 1;
+                                    fresh.push((rt, next_id));
+                                    chosen.push(next_id);
+                                }
+                            }
+                        }
+                        (true, _) => continue 'attempt, // the user code cannot produce a borrow of its own resource
+                    }
+                }
+                let mut it = chosen.into_iter();
+                let script = map_handles(&self.abi, self.resolve, v, t, &mut |_, _, _| it.next().unwrap_or(0));
+                out.push((self.text(&script), script));
+            }
+            for x in take_imp {
+                model.kept_imported.remove(&x);
+            }
+            for x in take_exp {
+                model.kept_exported.remove(&x);
+            }
+            model.next_obj_id = next_id;
+            return Some(out);
+        }
+        None
+    }
+
+    /// Lift-side bookkeeping of a value the guest produced: own handles leave the
+    /// guest's table (`lift_own`), borrows are checked.  Returns the value as the
+    /// user code scripted it (object ids for its own resources).
+    fn account_up(&mut self, f: &Func, v: &Val, ty: &Type, exported_ctx: bool, model: &mut Model, lent: &mut Vec<u32>) -> Val {
+        let mut problems: Vec<(String, String)> = vec![];
+        let out = map_handles(&self.abi, self.resolve, v, ty, &mut |k, r, h| {
+            let rt = with_res(|s| s.rt_of(r, exported_ctx));
+            let Some(rt) = rt else { return h };
+            let entry = with_res(|s| s.table.get(h as usize).cloned().flatten());
+            match (k, entry) {
+                (HandleKind::Own, Some(Entry::Own { rt: t, rep, lend })) if t == rt => {
+                    if lend > 0 {
+                        problems.push(("own-transferred-while-lent".into(), format!("own handle {h} given away while lent")));
+                    }
+                    with_res(|s| s.table[h as usize] = None);
+                    if with_res(|s| s.types[rt].exported) {
+                        let id = with_res(|s| s.guest_objs.get(&rep).and_then(|o| o.id)).unwrap_or(u32::MAX);
+                        model.host_owned.push((rt, rep, id));
+                        id
+                    } else {
+                        // a host object came back
+                        model.given.remove(&rep);
+                        h
+                    }
+                }
+                (HandleKind::Own, other) => {
+                    problems.push(("transfer-of-invalid-handle".into(), format!("the guest passed own handle {h}, but the table entry is {other:?} (used after giving it away / dropping it?)")));
+                    h
+                }
+                (_, Some(Entry::Own { rt: t, .. })) if t == rt => {
+                    with_res(|s| {
+                        if let Some(Entry::Own { lend, .. }) = &mut s.table[h as usize] {
+                            *lend += 1;
+                        }
+                    });
+                    lent.push(h);
+                    h
+                }
+                (_, Some(Entry::Borrow { rt: t, .. })) if t == rt => h,
+                (_, other) => {
+                    problems.push(("borrow-of-invalid-handle".into(), format!("the guest lent handle {h}, but the table entry is {other:?}")));
+                    h
+                }
+            }
+        });
+        for (k, m) in problems {
+            self.res_fail(&k, Self::op_kind(f), &m, Some(f));
+        }
+        out
+    }
+
+    // --------------------------------------------------------------- calls
+
+    fn res_call_export(&mut self, f: &Func, model: &mut Model) -> bool {
+        let sym = f.symbol();
+        let Some(entry) = self.exports.get(sym.as_str()).copied() else {
+            self.rep.inconclusive("an exported function of the world has no export symbol in the generated bindings");
+            return false;
+        };
+        let post = self.exports.get(f.post_symbol().as_str()).copied();
+        let op = Self::op_kind(f);
+        let sig = self.abi.signature(&f.params, f.result.as_ref(), SigKind::SyncLift);
+        let Some(down) = self.plan_down(&f.params, true, model) else {
+            self.rep.count("ops_skipped_host_owns_no_suitable_object");
+            return false;
+        };
+        let result_tys: Vec<Type> = f.result.iter().cloned().collect();
+        // a constructor returns the user value itself (`Self`), never a kept handle
+        let Some(up) = self.plan_up(&result_tys, true, matches!(f.kind, FunctionKind::Constructor(_)), model) else {
+            self.rep.count("ops_skipped_guest_holds_no_suitable_handle");
+            // undo nothing: entries created by plan_down stay in the table as host-side garbage;
+            // remove them so that the end-of-history ledger stays exact
+            for (_, idx, obj) in &down.received_own {
+                with_res(|s| {
+                    s.table[*idx as usize] = None;
+                    s.host_objs.remove(obj);
+                });
+            }
+            for (rt, idx, id) in &down.received_exported {
+                let rep = with_res(|s| match s.table[*idx as usize].take() {
+                    Some(Entry::Own { rep, .. }) => rep,
+                    _ => 0,
+                });
+                model.host_owned.push((*rt, rep, *id));
+            }
+            with_res(|s| {
+                // borrow entries of this plan
+                for e in s.table.iter_mut() {
+                    if matches!(e, Some(Entry::Borrow { .. })) {
+                        *e = None;
+                    }
+                }
+                s.borrows_in_call = 0;
+            });
+            return false;
+        };
+        self.call_no += 1;
+        let keep = self.rng.chance(1, 2);
+        obs::clear();
+        obs::set_keep(keep);
+        obs::push_script(up.first().map(|x| x.0.clone()).unwrap_or_default());
+        self.ctx(f, "call", op);
+        let flat: Result<Vec<CoreVal>, String> = with_shared(|sh| {
+            let mem = &mut sh.mem;
+            mem.begin_call();
+            if sig.indirect_params {
+                let (size, align) = self.abi.record_layout(&f.params);
+                let base = mem.alloc(size, align)?;
+                let offs = self.abi.field_offsets(&f.params);
+                for ((v, t), o) in down.wire.iter().zip(&f.params).zip(offs) {
+                    self.abi.store(mem, v, t, base + o as u64)?;
+                }
+                Ok(vec![if PTR == 4 { CoreVal::I32(base as u32) } else { CoreVal::I64(base) }])
+            } else {
+                let mut out = vec![];
+                for (v, t) in down.wire.iter().zip(&f.params) {
+                    out.extend(self.abi.lower_flat(mem, v, t)?);
+                }
+                Ok(out)
+            }
+        });
+        let Ok(flat) = flat else {
+            self.rep.inconclusive("host could not lower its own arguments (resources)");
+            return false;
+        };
+        with_res(|s| s.in_export = true);
+        alloc::set_tracking(true);
+        let ret = unsafe { (entry.call)(&flat) };
+        alloc::set_tracking(false);
+        self.rep.eval();
+        self.rep.count(&format!("ops_{op}"));
+        self.ctx(f, "lift-result", op);
+        let log = obs::take_log();
+        let selfs = self.absorb_notes(&log, model);
+        let seen_args: Vec<String> = log.iter().filter_map(|e| if let obs::Event::Arg(a) = e { Some(a.clone()) } else { None }).collect();
+        let self_args = matches!(f.kind, FunctionKind::Method(_)) as usize;
+        if seen_args.len() + self_args != down.seen.len() {
+            self.res_fail("dispatch", op, &format!("the user implementation received {} arguments, the host sent {}", seen_args.len() + self_args, down.seen.len()), Some(f));
+        } else {
+            if self_args == 1 {
+                // `self`: the object reached through the borrowed handle
+                let want = down.seen[0].clone();
+                let got = selfs.first().map(|id| format!("h{id}")).unwrap_or_else(|| "<no self>".into());
+                if want != got {
+                    self.res_fail("wrong-object", op, &format!("method reached object {got}, the host passed a borrow of {want}"), Some(f));
+                }
+                self.rep.count("self_identity_checks");
+            }
+            for (i, t) in f.params.iter().enumerate().skip(self_args) {
+                let exp = down.seen[i].clone();
+                let got = seen_args[i - self_args].clone();
+                if crate::run::type_has_handle(&self.abi, t, 0) {
+                    self.rep.count("handle_carrying_values_compared");
+                }
+                self.judge_res(f, "param", t, i, &exp, &got);
+            }
+        }
+        // lift the result
+        let mut lent = vec![];
+        if let (Some(ty), Some((script, _))) = (&f.result, up.first()) {
+            let lifted: Result<Val, String> = with_shared(|sh| {
+                let mem = &sh.mem;
+                match (sig.retptr, ret) {
+                    (true, Some(p)) => self.abi.load(mem, ty, p.bits()),
+                    (false, Some(v)) => {
+                        let vs = [v];
+                        self.abi.lift_flat(mem, &mut vs.iter(), ty)
+                    }
+                    (_, None) => Err("the export returned no core value".to_string()),
+                }
+            });
+            match lifted {
+                Ok(v) => {
+                    let seen = self.account_up(f, &v, ty, true, model, &mut lent);
+                    let got = self.text(&seen);
+                    if crate::run::type_has_handle(&self.abi, ty, 0) {
+                        self.rep.count("handle_carrying_values_compared");
+                    }
+                    self.judge_res(f, "result", ty, 0, script, &got);
+                }
+                Err(e) => self.res_fail("result-lift", op, &format!("the host could not lift the result: {e}"), Some(f)),
+            }
+        }
+        if let Some(post) = post {
+            self.ctx(f, "post-return", op);
+            let args: Vec<CoreVal> = ret.into_iter().collect();
+            alloc::set_tracking(true);
+            unsafe { (post.call)(&args) };
+            alloc::set_tracking(false);
+        }
+        // end of the call: every borrow the guest received must be gone
+        let left = with_res(|s| {
+            s.in_export = false;
+            let n = s.borrows_in_call;
+            s.borrows_in_call = 0;
+            let mut stale = vec![];
+            for (i, e) in s.table.iter_mut().enumerate() {
+                if matches!(e, Some(Entry::Borrow { .. })) {
+                    stale.push(i);
+                    *e = None;
+                }
+            }
+            (n, stale)
+        });
+        if left.0 > 0 {
+            self.res_fail("borrows-left-at-end-of-call", op, &format!("{} borrow handle(s) {:?} were not dropped before the export returned", left.0, left.1), Some(f));
+        }
+        // what the user code did with the own handles it received
+        for (rt, idx, obj) in &down.received_own {
+            let live = with_res(|s| matches!(s.table.get(*idx as usize), Some(Some(Entry::Own { .. }))));
+            if keep {
+                if live {
+                    model.kept_imported.insert((*rt, *idx));
+                    model.given.insert(*obj, *idx);
+                } else if with_res(|s| s.host_objs.get(obj).map(|o| o.guest_drops).unwrap_or(0)) == 0 && !model.given.contains_key(obj) {
+                    // handed straight back in the result: accounted in account_up
+                }
+            } else if live {
+                self.res_fail("own-handle-leaked", op, &format!("the user code dropped its value, but own handle {idx} is still in the guest's table (never dropped by the bindings)"), Some(f));
+                with_res(|s| s.table[*idx as usize] = None);
+            }
+        }
+        for (rt, idx, id) in &down.received_exported {
+            let live = with_res(|s| matches!(s.table.get(*idx as usize), Some(Some(Entry::Own { .. }))));
+            if keep && live {
+                model.kept_exported.insert((*rt, *id));
+            } else if !keep && live {
+                self.res_fail("own-handle-leaked", op, &format!("the user code dropped its value, but own handle {idx} (object {id}) is still in the guest's table"), Some(f));
+                with_res(|s| s.table[*idx as usize] = None);
+            }
+        }
+        self.drain_traps(Some(f), op);
+        let key = format!("res-export|{}|{}|{}|{}", op, f.params.iter().map(|t| self.abi.shape_key(t)).collect::<Vec<_>>().join(","), f.result.as_ref().map(|t| self.abi.shape_key(t)).unwrap_or_default(), keep);
+        self.rep.distinct(&key);
+        true
+    }
+
+    fn judge_res(&mut self, f: &Func, what: &str, ty: &Type, index: usize, expected: &str, observed: &str) {
+        // same comparison as C05, but a mismatch on a handle-carrying value is a C07 matter
+        if crate::run::type_has_handle(&self.abi, ty, 0) {
+            match crate::norm::compare(expected, observed) {
+                crate::norm::Cmp::Equal | crate::norm::Cmp::NanOnly => {}
+                _ => {
+                    let class = crate::plan::shape_class(&self.abi, ty, 0);
+                    self.res_fail(
+                        "wrong-handle-or-object",
+                        &format!("{}:{}:{}", Self::op_kind(f), what, class),
+                        &format!("{} {} (index {index}) carried different handles/objects: expected {expected} observed {observed}", f.dir.name(), what),
+                        Some(f),
+                    );
+                }
+            }
+        } else {
+            self.judge(f, what, ty, index, expected, observed);
+        }
+    }
+
+    fn res_call_import(&mut self, f: &Func, model: &mut Model) -> bool {
+        let link = f.symbol();
+        let Some(idx) = self.imports.get(link.as_str()).copied() else {
+            self.rep.inconclusive("an imported function of the world has no import declaration in the generated bindings");
+            return false;
+        };
+        let Some(driver) = self.tables.imports[idx].driver else {
+            self.rep.inconclusive("no public Rust function wraps an import declaration (no driver)");
+            return false;
+        };
+        let op = Self::op_kind(f);
+        // the user code builds the arguments (handles it holds), the host the result
+        let Some(up) = self.plan_up(&f.params, false, false, model) else {
+            self.rep.count("ops_skipped_guest_holds_no_suitable_handle");
+            return false;
+        };
+        let result_tys: Vec<Type> = f.result.iter().cloned().collect();
+        let Some(down) = self.plan_down(&result_tys, false, model) else {
+            self.rep.count("ops_skipped_host_owns_no_suitable_object");
+            return false;
+        };
+        // plan_down counted borrows, but an import result cannot contain borrows
+        with_res(|s| s.borrows_in_call = 0);
+        self.call_no += 1;
+        let keep = self.rng.chance(1, 2);
+        obs::clear();
+        obs::set_keep(keep);
+        for (s, _) in &up {
+            obs::push_script(s.clone());
+        }
+        with_shared(|sh| {
+            sh.pending = Some(crate::run::Pending {
+                link: link.clone(),
+                params: f.params.clone(),
+                result: f.result,
+                result_val: down.wire.first().cloned(),
+                lifted: None,
+                calls: 0,
+                lower_error: None,
+                flat_in: 0,
+                used_retptr: false,
+                used_indirect: false,
+            })
+        });
+        self.ctx(f, "call", op);
+        alloc::set_tracking(true);
+        driver();
+        alloc::set_tracking(false);
+        self.rep.eval();
+        self.rep.count(&format!("ops_{op}"));
+        let p = with_shared(|sh| sh.pending.take()).unwrap();
+        if p.calls != 1 {
+            self.res_fail("dispatch", op, &format!("the binding called its import {} times for one call", p.calls), Some(f));
+        }
+        let mut lent = vec![];
+        match p.lifted {
+            Some(Ok(vals)) => {
+                for (i, ((t, (script, _)), v)) in f.params.iter().zip(&up).zip(&vals).enumerate() {
+                    let seen = self.account_up(f, v, t, false, model, &mut lent);
+                    let got = self.text(&seen);
+                    if crate::run::type_has_handle(&self.abi, t, 0) {
+                        self.rep.count("handle_carrying_values_compared");
+                    }
+                    self.judge_res(f, "param", t, i, script, &got);
+                }
+            }
+            Some(Err(e)) => self.res_fail("param-lift", op, &format!("the host could not lift the arguments: {e}"), Some(f)),
+            None => {}
+        }
+        // the call is over: lends end (the host looked at the handles while the call was in progress)
+        with_res(|s| {
+            for h in &lent {
+                if let Some(Some(Entry::Own { lend, .. })) = s.table.get_mut(*h as usize) {
+                    *lend = lend.saturating_sub(1);
+                }
+            }
+        });
+        let log = obs::take_log();
+        self.absorb_notes(&log, model);
+        let rets: Vec<&String> = log.iter().filter_map(|e| if let obs::Event::Ret(r) = e { Some(r) } else { None }).collect();
+        if let (Some(ty), Some(exp)) = (&f.result, down.seen.first()) {
+            match rets.as_slice() {
+                [got] => {
+                    let got = (*got).clone();
+                    if crate::run::type_has_handle(&self.abi, ty, 0) {
+                        self.rep.count("handle_carrying_values_compared");
+                    }
+                    self.judge_res(f, "result", ty, 0, exp, &got)
+                }
+                other => self.res_fail("dispatch", op, &format!("the driver logged {} results", other.len()), Some(f)),
+            }
+        }
+        for (rt, idx, obj) in &down.received_own {
+            let live = with_res(|s| matches!(s.table.get(*idx as usize), Some(Some(Entry::Own { .. }))));
+            if keep && live {
+                model.kept_imported.insert((*rt, *idx));
+                model.given.insert(*obj, *idx);
+            } else if !keep && live {
+                self.res_fail("own-handle-leaked", op, &format!("the user code dropped the result, but own handle {idx} is still in the guest's table (never dropped by the bindings)"), Some(f));
+                with_res(|s| s.table[*idx as usize] = None);
+            }
+        }
+        // lent handles must still be there (a borrow must not consume the handle)
+        for h in &lent {
+            let live = with_res(|s| matches!(s.table.get(*h as usize), Some(Some(Entry::Own { .. }))));
+            if !live {
+                self.res_fail("lent-handle-gone", op, &format!("own handle {h} was only lent to the import, but it is gone from the guest's table after the call"), Some(f));
+                let key: Vec<(usize, u32)> = model.kept_imported.iter().filter(|x| x.1 == *h).cloned().collect();
+                for k in key {
+                    model.kept_imported.remove(&k);
+                }
+            }
+        }
+        self.drain_traps(Some(f), op);
+        let key = format!("res-import|{}|{}|{}|{}", op, f.params.iter().map(|t| self.abi.shape_key(t)).collect::<Vec<_>>().join(","), f.result.as_ref().map(|t| self.abi.shape_key(t)).unwrap_or_default(), keep);
+        self.rep.distinct(&key);
+        true
+    }
+
+    /// the host drops an own handle it holds to a guest object: `[dtor]` runs
+    fn res_host_drop(&mut self, model: &mut Model) {
+        if model.host_owned.is_empty() {
+            return;
+        }
+        let i = self.rng.usize(model.host_owned.len());
+        let (rt, rep, id) = model.host_owned.remove(i);
+        obs::clear();
+        let c = json!({"call": self.call_no, "dir": "export", "func": "[dtor]", "phase": "call", "op": "host-drop", "world": self.world_tag}).to_string();
+        obs::set_context(&c);
+        eprintln!("CTX {c}");
+        with_shared(|sh| destroy(sh, rt, rep));
+        let log = obs::take_log();
+        let before = model.dropped.get(&id).copied().unwrap_or(0);
+        self.absorb_notes(&log, model);
+        let after = model.dropped.get(&id).copied().unwrap_or(0);
+        self.rep.eval();
+        self.rep.count("ops_host_drop_of_guest_object");
+        if after != before + 1 {
+            self.res_fail("dtor-did-not-destroy", "host-drop", &format!("the host dropped its own handle to object {id}; the user value was destroyed {} times by `[dtor]`", after - before), None);
+        }
+        self.drain_traps(None, "host-drop");
+    }
+
+    /// the user code drops everything it kept
+    fn res_clear_stash(&mut self, model: &mut Model) {
+        let Some(hooks) = self.tables.res_hooks else { return };
+        obs::clear();
+        let c = json!({"call": self.call_no, "dir": "import", "func": "[resource-drop]", "phase": "call", "op": "guest-drops-kept", "world": self.world_tag}).to_string();
+        obs::set_context(&c);
+        eprintln!("CTX {c}");
+        alloc::set_tracking(true);
+        (hooks.clear_stash)();
+        alloc::set_tracking(false);
+        let log = obs::take_log();
+        self.absorb_notes(&log, model);
+        self.rep.eval();
+        self.rep.count("ops_guest_drops_kept_handles");
+        for (_, idx) in std::mem::take(&mut model.kept_imported) {
+            let live = with_res(|s| matches!(s.table.get(idx as usize), Some(Some(_))));
+            if live {
+                self.res_fail("own-handle-leaked", "guest-drops-kept", &format!("the user code dropped its kept value, but own handle {idx} is still in the guest's table"), None);
+                with_res(|s| s.table[idx as usize] = None);
+            }
+        }
+        model.given.clear();
+        model.kept_exported.clear();
+        self.drain_traps(None, "guest-drops-kept");
+    }
+
+    fn res_end_of_history(&mut self, model: &mut Model) {
+        self.res_clear_stash(model);
+        while !model.host_owned.is_empty() {
+            self.res_host_drop(model);
+        }
+        // nothing may be left in the guest's table
+        let left = with_res(|s| s.live_own_entries());
+        if !left.is_empty() {
+            self.res_fail("handles-left-at-end", "history-end", &format!("entries left in the guest's handle table after everything was dropped: {:?}", &left[..left.len().min(6)]), None);
+            with_res(|s| s.table.iter_mut().for_each(|e| *e = None));
+        }
+        // every guest object destroyed exactly once, via [dtor]
+        for (id, n) in &model.created {
+            let d = model.dropped.get(id).copied().unwrap_or(0);
+            if *n != 1 || d != 1 {
+                let kind = if d == 0 { "guest-object-never-destroyed" } else if d > 1 { "guest-object-destroyed-twice" } else { "guest-object-created-twice" };
+                self.res_fail(kind, "history-end", &format!("user object {id}: created {n} times, destroyed {d} times over the history"), None);
+            }
+        }
+        let bad: Vec<(u64, u32)> = with_res(|s| {
+            s.guest_objs.iter().map(|(r, o)| (*r, o)).chain(s.retired.iter().map(|o| (0u64, o))).filter(|(_, o)| o.dtor_calls != 1).map(|(r, o)| (r, o.dtor_calls)).collect()
+        });
+        if !bad.is_empty() {
+            self.res_fail("dtor-count", "history-end", &format!("representations whose `[dtor]` ran a number of times other than 1: {:?}", &bad[..bad.len().min(6)]), None);
+        }
+        // every host object given as own was dropped exactly once or handed back
+        let bad: Vec<(u64, u32)> = with_res(|s| s.host_objs.iter().filter(|(_, o)| o.guest_drops > 1).map(|(i, o)| (*i, o.guest_drops)).collect());
+        if !bad.is_empty() {
+            self.res_fail("host-object-dropped-twice", "history-end", &format!("host objects dropped more than once by the guest: {:?}", &bad[..bad.len().min(6)]), None);
+        }
+        if let Some(h) = self.tables.res_hooks {
+            if (h.stash_len)() != 0 {
+                self.rep.inconclusive("the user-side stash is not empty at the end of a history");
+            }
+        }
+        self.rep.count("histories_completed");
+        with_res(|s| {
+            s.guest_objs.clear();
+            s.retired.clear();
+            s.host_objs.clear();
+        });
+        *model = Model { next_obj_id: model.next_obj_id, ..Model::default() };
+    }
+}
+
+pub fn run_histories(host: &mut Host, histories: usize, ops: usize) {
+    // resource types of the world
+    let types: Vec<ResType> = host.view.resources.iter().map(|r| ResType { id: r.id, exported: r.dir == Dir::Export, module: r.module.clone(), name: r.name.clone() }).collect();
+    if types.is_empty() {
+        host.rep.inconclusive("world has no resource");
+        return;
+    }
+    with_res(|s| {
+        *s = ResState::default();
+        s.types = types;
+    });
+    let funcs: Vec<Func> = host.view.funcs.iter().filter(|f| !f.is_async).cloned().collect();
+    let mut model = Model::default();
+    for h in 0..histories {
+        let n_ops = 4 + host.rng.usize(ops.max(5) - 3);
+        let mut done = 0;
+        let mut attempts = 0;
+        while done < n_ops && attempts < n_ops * 6 {
+            attempts += 1;
+            let roll = host.rng.below(24);
+            if roll == 0 {
+                host.res_clear_stash(&mut model);
+                done += 1;
+            } else if roll <= 2 {
+                if !model.host_owned.is_empty() {
+                    host.res_host_drop(&mut model);
+                    done += 1;
+                }
+            } else {
+                // prefer functions that touch handles
+                let f = funcs[host.rng.usize(funcs.len())].clone();
+                let touches = f.resource().is_some() || f.params.iter().chain(f.result.iter()).any(|t| crate::run::type_has_handle(&host.abi, t, 0));
+                if !touches && host.rng.chance(4, 5) {
+                    continue;
+                }
+                let ok = match f.dir {
+                    Dir::Export => host.res_call_export(&f, &mut model),
+                    Dir::Import => host.res_call_import(&f, &mut model),
+                };
+                if ok {
+                    done += 1;
+                }
+            }
+            if host.rep.violations.len() > 12 {
+                break;
+            }
+        }
+        host.res_end_of_history(&mut model);
+        host.rep.distinct(&format!("history|{}|{}", host.world_tag, h));
+        if host.rep.violations.len() > 12 {
+            break;
+        }
+    }
+    let counters = with_res(|s| s.counters.clone());
+    for (k, v) in counters {
+        host.rep.count_n(k, v);
+    }
 }
